@@ -326,3 +326,7 @@ def run(chk):
     rule_transparent(chk)
     c02.rule_alloc(chk, prefix="C06")
     c03.rule_start(chk)
+    from . import c09
+    c09.rule_model(chk, prefix="C06")   # the remote sub-tree is attached by (task_uuid, task_level) alone
+    c09.rule_add_dispatch(chk)
+    c09.rule_upward(chk)
